@@ -949,7 +949,7 @@ class Plan:
             if rest < 1:
                 return self.add_set(self.pos(i), math.sqrt(1.0 - rest), op)
         if op.startswith("bind") and syms:
-            free_names = [x for x in SYMBOLS + ["mu", "nu"] if sympy.Symbol(x) not in syms]
+            free_names = [x for x in SYMBOLS + ["mu", "nu"] if sympy.Symbol(x) not in syms] or ["fresh_%d" % len(syms)]
             if op == "bind_noop":
                 m = rng.choice([{}, {sympy.Symbol(rng.choice(free_names)): 0.3}])
                 return self.add_bind(m, op)
